@@ -1,5 +1,5 @@
 (* C20/Witness.v — non-vacuity examples and concrete evaluations (vm_compute). *)
-From Verif Require Import Common.Base C20.Model C20.Proofs1 C20.Proofs2 C20.Proofs3 C20.Proofs4.
+From Verif Require Import Common.Base C20.Model C20.Proofs1 C20.Proofs2 C20.Proofs3 C20.Proofs4 C20.Repaired.
 
 Definition o1 : oracle :=
   mkOracle (fun g => match g with
@@ -162,4 +162,17 @@ Example ex_failed_shutdown_present :
   let r := run o1 init [LRun BrWatch; LRun BrWatch; LInjSig SigHup; LRun BrSignal; LRun BrWatch; LRun BrWatch;
                         LInjWatch false; LRun BrWatch; LRun BrWatch] in
   existsb is_failed_shut (snd r) = true /\ last_opt (snd r) = Some (AReturn RErrRetire).
+Proof. vm_compute. auto. Qed.
+
+(* the repairs on the two refutation witnesses *)
+Example ex_fatal_during_reload_repaired :   (* faithful model: PStuck (ex_fatal_during_reload) *)
+  let r := run_repaired refute_oracle init [LRun BrWatch; LRun BrWatch; LInjSig SigHup; LRun BrSignal; LInjAsync (SndFatal 0);
+                                            LRun BrWatch; LRun BrWatch] in
+  st_pc (fst r) = PSelect /\ st_async (fst r) = [] /\ st_live (fst r) = Some 1.
+Proof. vm_compute. auto. Qed.
+
+Example ex_panic_history_repaired :
+  let r := run_watchfix refute_oracle init panic_history in
+  st_pc (fst r) = PDone DStopped /\ count is_sender_panic (snd r) = 0 /\
+  count is_sender_panic (snd (run refute_oracle init panic_history)) = 1.
 Proof. vm_compute. auto. Qed.
